@@ -82,6 +82,10 @@ inductive FlagKind where
   | unknown
   deriving DecidableEq, Repr
 
+def FlagKind.isRange : FlagKind → Bool
+  | .range _ => true
+  | _ => false
+
 def flagKind (env : FlagEnv) (f : Str) : FlagKind :=
   if f = lit "fuzzy" then .fuzzy
   else if f = lit "wrap" then .wrap
@@ -217,10 +221,11 @@ def messageRules (env : Env) (ctx : Ctx) (file : List Entry) : List (List Emit) 
 /-! ## side conditions on the environment under which no exception can occur -/
 
 /-- no exception can leave the message checks: expat raises nothing but `ExpatError`, every character the
-    unusual-character class produces has a name, no format name contains a brace -/
+    unusual-character class produces has a name, no format name and no flag prefix contains a brace -/
 structure Sane (env : Env) : Prop where
   xml : ∀ s, env.xml s ≠ .other
   names : ∀ s c, c ∈ env.findUnusual s → (env.charName c).isSome
   braces : ∀ f ∈ env.flag.formats, ∀ c ∈ f.1, c ≠ 123 ∧ c ≠ 125
+  prefixBraces : ∀ p ∈ env.flag.prefixes, ∀ c ∈ p, c ≠ 123 ∧ c ≠ 125
 
 end I18n.Spec.MessageRules
